@@ -58,6 +58,21 @@ def run(ctx):
     trgi = ctx.path("gate_inhouse.ndjson")
     ctx.run_mvh(["gate", "-aux", "inhouse", "-vectors", ctx.path("gatevec_inhouse.ndjson"), "-out", trgi, "-seed", ctx.seed, "-tier", ctx.tier])
     recs += _stream.validate_streams(ctx, trgi, defs=defs, clause_filter=lambda c: c in MINE)
+    # the gate behind a signature check: a reader with an incoming key AND a dialect. Spec-made frames whose checksum is wrong
+    # (one bit off / computed with another CRC_EXTRA) under a signature that is VALID over those bytes must not be delivered;
+    # the correctly summed signed frames of the same messages must (vectors of Gen_SignedDl, as in C06)
+    rc, out = ctx.tlc("Gen_SignedDl", env={"DEFS": defs, "DIALECT": defs + ".allplus.json", "VSEED": ctx.seed}, tag="gen:signed_dl", timeout=900)
+    nvd = _stream.parse_vec_lines(out, ctx.path("sigdlvec.ndjson"))
+    if nvd < 26:
+        raise vf.Inconclusive("Gen_SignedDl produced %d vectors:\n%s" % (nvd, vf.tail(out, 30)))
+    trk = ctx.path("gate_keyed.ndjson")
+    ctx.run_mvh(["c06d", "-aux", "c06", "-vectors", ctx.path("sigdlvec.ndjson"), "-out", trk, "-seed", ctx.seed, "-tier", ctx.tier])
+    krecs = _stream.validate_streams(ctx, trk, defs=defs, clause_filter=lambda c: c in MINE)
+    ctx.cov["keyed_gate_streams"] = len(krecs)
+    ctx.cov["keyed_gate_wrong_checksum_streams"] = sum(1 for r in krecs if r.get("tag", "").startswith("kd_badck"))
+    if ctx.cov["keyed_gate_wrong_checksum_streams"] == 0:
+        raise vf.Inconclusive("no wrongly summed signed frame was played")
+    recs += krecs
     conc = [r for r in recs if r["e"] == "CONC"]
     recs = [r for r in recs if r["e"] == "STREAM"]
     ctx.cov["concurrent_readers_sharing_a_dialect"] = [{"passes": r["passes"], "delivered": r["delivered"], "perr": r["perr"]} for r in conc]
@@ -89,7 +104,7 @@ def run(ctx):
     ctx.cov["gate_frames_delivered"] = delivered
     ctx.cov["rule"] = ("(a) real Sum16 of all 3-byte strings with a given first byte (= all 65536x256 (register,byte) pairs behind it); "
                        "(b) random strings <=300 bytes in random splits; (c) TLC-computed valid frames of dialect messages read by a real "
-                       "dialect reader untouched, with every single-bit flip, byte substitutions, multi-byte damage; (d) a node behind UDP client / "
+                       "dialect reader untouched, with every single-bit flip, byte substitutions, multi-byte damage, and - through a reader with an incoming key - validly signed frames with a wrong checksum; (d) a node behind UDP client / "
                        "broadcast / server transports fed single, damaged and many-frames-per-datagram input; distinct = record "
                        "classes (first byte | length/splits | tag, length, result kinds)")
     ctx.assumptions += ["X25.tla bit-serial definition is CRC-16/MCRF4XX (catalogue check value 0x6F91 asserted)",
